@@ -89,7 +89,7 @@ Definition token_same (a b : token) : bool :=
 (* data.rs:67-76 data_elements_to_string *)
 Definition show_data_elem (e : data_elem) : bytes :=
   match e with
-  | DStr s => 34%N :: s ++ [34%N]
+  | DStr s => if existsb (N.eqb 34) s then s else 34%N :: s ++ [34%N]
   | DNum x => show_f64 x
   end.
 
